@@ -164,7 +164,18 @@ def safeFamilies : List String := [
   "strconv.", "unicode.", "unicode/utf8.", "path.", "path/filepath.Clean", "path/filepath.Join", "path/filepath.Base",
   "net/url.PathEscape", "net/url.PathUnescape", "net/url.QueryEscape", "net/url.QueryUnescape", "net/url.ParseQuery",
   "sort.Search", "errors.", "fmt.Sprint", "fmt.Errorf", "net/http.StatusText", "net/http.CanonicalHeaderKey",
-  "(net/http.Header).Get", "(net/http.Header).Values", "net/textproto.CanonicalMIMEHeaderKey"]
+  "(net/http.Header).Get", "(net/http.Header).Values", "net/textproto.CanonicalMIMEHeaderKey",
+  -- regexp: "A Regexp is safe for concurrent use by multiple goroutines, except for configuration methods, such as
+  -- Longest" — every matching / inspecting method, none of the configuration ones
+  "(*regexp.Regexp).Find", "(*regexp.Regexp).Match", "(*regexp.Regexp).NumSubexp", "(*regexp.Regexp).Subexp",
+  "(*regexp.Regexp).String", "(*regexp.Regexp).ReplaceAll", "(*regexp.Regexp).Split", "(*regexp.Regexp).Expand",
+  "(*regexp.Regexp).LiteralPrefix",
+  -- sync/atomic: every operation is atomic (the storing ones are also recorded as atomic WRITES of the footprint)
+  "sync/atomic.", "(*sync/atomic.",
+  -- charmbracelet/log: every method of a Logger takes the logger's mutex
+  "(*github.com/charmbracelet/log.Logger).",
+  -- the Append… functions write behind the end of the caller's own buffer and return it
+  "strconv.Append", "(time.Time).AppendFormat", "fmt.Append", "unicode/utf8.AppendRune"]
 
 def callPrefix (p s : String) : Bool := p.toUTF8.data.toList.isPrefixOf s.toUTF8.data.toList
 
@@ -199,7 +210,8 @@ example : callIsSafe "(*bytes.Buffer).WriteString" = false ∧ callIsSafe "(*syn
     callIsSafe "(*sync.Map).Store" = false ∧ callIsSafe "(*strings.Builder).WriteString" = false ∧
     callIsSafe "(*sync.Pool).Put" = false ∧ callIsSafe "invoke reflect.Type.Kind" = true ∧
     callIsSynchronised "(*sync.Map).Store" = true ∧ callIsSynchronised "(*sync.Mutex).Lock" = false ∧
-    callIsSynchronised "(*bytes.Buffer).WriteString" = false := by decide
+    callIsSynchronised "(*bytes.Buffer).WriteString" = false ∧ callIsSafe "(*regexp.Regexp).Longest" = false ∧
+    callIsSafe "(*regexp.Regexp).FindStringSubmatchIndex" = true := by decide
 
 /-! ## (iii) isolation: every interleaving is serial for every request -/
 
